@@ -274,6 +274,51 @@ func (s *sconn) SetWriteDeadline(time.Time) error { return nil }
 type Op struct {
 	K string `json:"k"`
 	N int    `json:"n"`
+	M int    `json:"m"` // ReadFrom: behaviour of the reader
+}
+
+// patReader is the io.Reader handed to ReadFrom.
+type patReader struct {
+	off, left, mode int
+	calls, empties  int
+}
+
+func (r *patReader) Read(p []byte) (int, error) {
+	r.calls++
+	if r.calls > 10000000 {
+		panic("verif: ReadFrom keeps calling Read (no progress)")
+	}
+	if len(p) == 0 {
+		return 0, nil
+	}
+	if r.left == 0 {
+		return 0, io.EOF
+	}
+	if r.mode == 4 && r.calls%3 == 1 && r.empties < 3 {
+		r.empties++
+		r.calls--
+		return 0, nil
+	}
+	r.empties = 0
+	n := len(p)
+	switch r.mode {
+	case 1, 4:
+		if n > 1000 {
+			n = 1000
+		}
+	case 2:
+		n = 1
+	}
+	if n > r.left {
+		n = r.left
+	}
+	fillPat(p[:n], r.off)
+	r.off += n
+	r.left -= n
+	if r.mode == 3 && r.left == 0 {
+		return n, io.EOF
+	}
+	return n, nil
 }
 
 type Case struct {
@@ -305,6 +350,14 @@ type outstanding struct {
 // scribble: take blocks out of the mcache free lists, overwrite them and give them back.  A block the connection
 // has freed while a slice into it is still supposed to be valid is thereby overwritten deterministically instead of
 // "whenever somebody else happens to reuse it".  Harmless for memory that is not free.
+var fives = func() []byte {
+	b := make([]byte, 1<<16)
+	for i := range b {
+		b[i] = 0x5A
+	}
+	return b
+}()
+
 var ones = func() []byte {
 	b := make([]byte, 1<<19)
 	for i := range b {
@@ -368,9 +421,17 @@ func runCase(tr *vtrace.Writer, c *Case, geo bool) {
 
 	// The caller's buffers.  arena=1: every WriteBinary/Write argument is the next sub-slice of one backing array, so
 	// it has spare capacity (len < cap) and the following argument lies right behind it, the way one payload is sent
-	// in pieces.  shadow = what the caller itself put into the array (0xA5 where it has put nothing yet).
+	// in pieces; arena=0: a fresh tight buffer per call.  `own` lists every buffer the caller has handed to the writer
+	// with a shadow of what the caller itself put there (arena mode: one shadow of the whole array, 0xA5 where the
+	// caller has put nothing yet).  Once Flush / Write has returned the caller owns its buffers again and REUSES them:
+	// it overwrites them with junk (0x5A), again before every later Flush / Write.  ab (altered) = bytes of the
+	// caller's memory that do not hold what the caller put there.
+	type owned struct {
+		b, shadow []byte // shadow nil: the buffer has been flushed and junked
+	}
 	var arena, shadow []byte
-	apos := 0
+	var own []owned
+	apos, junked := 0, 0 // arena: next free offset; prefix [0, junked) has been flushed and junked
 	if c.Arena == 1 {
 		total := 0
 		for _, op := range c.Ops {
@@ -390,6 +451,9 @@ func runCase(tr *vtrace.Writer, c *Case, geo bool) {
 		if arena == nil {
 			p := make([]byte, n)
 			fillPat(p, wr)
+			if n > 0 {
+				own = append(own, owned{p, append([]byte(nil), p...)})
+			}
 			return p
 		}
 		p := arena[apos : apos+n] // cap(p) reaches to the end of the arena
@@ -398,14 +462,70 @@ func runCase(tr *vtrace.Writer, c *Case, geo bool) {
 		apos += n
 		return p
 	}
-	altered := func() int {
-		if arena == nil || bytes.Equal(arena, shadow) {
+	junk := func(b []byte) {
+		for len(b) > 0 {
+			b = b[copy(b, fives):]
+		}
+	}
+	// the caller reuses everything that has been flushed (all = true: everything handed over so far is flushed now)
+	reuse := func(all bool) {
+		if arena != nil {
+			if all {
+				junked = apos
+			}
+			junk(arena[:junked])
+			junk(shadow[:junked])
+			return
+		}
+		keep := 0
+		for i := range own {
+			if all {
+				own[i].shadow = nil
+			}
+			if own[i].shadow == nil {
+				junk(own[i].b)
+			}
+		}
+		// bound the memory kept under observation (oldest flushed buffers first)
+		total := 0
+		for i := len(own) - 1; i >= 0; i-- {
+			total += len(own[i].b)
+			if total > 16<<20 && own[i].shadow == nil {
+				keep = i + 1
+				break
+			}
+		}
+		own = own[keep:]
+	}
+	diff := func(x, y []byte) int {
+		if bytes.Equal(x, y) {
 			return 0
 		}
 		d := 0
-		for i := range arena {
-			if arena[i] != shadow[i] {
+		for i := range x {
+			if x[i] != y[i] {
 				d++
+			}
+		}
+		return d
+	}
+	altered := func() int {
+		if arena != nil {
+			return diff(arena, shadow)
+		}
+		d := 0
+		for _, o := range own {
+			if o.shadow != nil {
+				d += diff(o.b, o.shadow)
+				continue
+			}
+			for b := o.b; len(b) > 0; {
+				k := len(b)
+				if k > len(fives) {
+					k = len(fives)
+				}
+				d += diff(b[:k], fives[:k])
+				b = b[k:]
 			}
 		}
 		return d
@@ -484,12 +604,29 @@ func runCase(tr *vtrace.Writer, c *Case, geo bool) {
 			cnt, cls = n, classify(err)
 			wr += op.N
 		case "Flush":
+			reuse(false)
 			err := w.Flush()
 			cls = classify(err)
+			if err == nil {
+				reuse(true)
+			}
 		case "Write":
+			reuse(false)
 			p := callerBuf(op.N)
 			n, err := conn.Write(p)
 			cnt, cls = n, classify(err)
+			wr += op.N
+			if err == nil {
+				reuse(true)
+			}
+		case "ReadFrom":
+			// io.ReaderFrom: the path of streamed bodies.  The reader yields the next op.N bytes of the written
+			// stream in the manner op.M: 0 whatever fits, 1 at most 1000 bytes per call, 2 one byte per call,
+			// 3 whatever fits and io.EOF together with the last bytes, 4 like 1 with three (0, nil) reads before
+			// every third delivery.
+			rd := &patReader{off: wr, left: op.N, mode: op.M}
+			n, err := conn.(io.ReaderFrom).ReadFrom(rd)
+			cnt, cls = int(n), classify(err)
 			wr += op.N
 		default:
 			panic("verif: unknown op " + op.K)
@@ -507,12 +644,17 @@ func runCase(tr *vtrace.Writer, c *Case, geo bool) {
 		if conn != nil {
 			ln = conn.Len()
 		}
+		ab := 0
+		switch op.K {
+		case "Malloc", "WriteBinary", "Flush", "Write", "ReadFrom":
+			ab = altered()
+		}
 		pks := make([]pk, 0, len(peeks))
 		for _, o := range peeks {
 			pks = append(pks, pkOf(o.b, o.from))
 		}
 		tr.Emit("Op", vtrace.Rec{"i": i + 1, "k": op.K, "n": op.N, "cnt": cnt, "f": r.F, "t": r.T, "nr": nr,
-			"cls": cls, "len": ln, "pk": pks, "ab": altered()})
+			"cls": cls, "len": ln, "pk": pks, "ab": ab, "m": op.M})
 		if geo && sc != nil {
 			tr.Emit("Geo", vtrace.Rec{"in": geoOf(sc.VerifInputNodes()), "out": geoOf(sc.VerifOutputNodes())})
 		}
